@@ -60,7 +60,10 @@ def observe(net, L1, L2):
     for name, lists in (("cross_path_lengths", (L1, L2)), ("internal_path_lengths", (L1,)),
                         ("cross_average_path_length", (L1, L2)), ("internal_average_path_length", (L1,)),
                         ("cross_closeness", (L1, L2)), ("internal_closeness", (L1,)),
-                        ("local_efficiency", (L1, L2)), ("cross_outdegree", (L1, L2))):
+                        ("local_efficiency", (L1, L2)), ("cross_outdegree", (L1, L2)),
+                        ("average_cross_closeness", (L1, L2)), ("global_efficiency", (L1, L2)),
+                        ("cross_indegree", (L1, L2)), ("cross_degree", (L1, L2)),
+                        ("internal_outdegree", (L1,)), ("internal_indegree", (L1,)), ("internal_degree", (L1,))):
         try:
             put(name + "(c)", getattr(net, name)(*[list(l) for l in lists], link_attribute="c"),
                 n1, n2 if len(lists) == 2 else n1)
